@@ -1,0 +1,324 @@
+//go:build verif
+
+// Contracts for package ps, read by /verif's govc (comment-only; no declarations).
+// The distributed key generation of TPS mirrors bls.TBLS (same phases, same maps); see mpc/bls/zz_contracts_verif.go
+// for the explanation of the clauses. mathlib objects are abstract (val(x)); see /verif/engine libmodels_math.go.
+
+package ps
+
+//@ spec macro curveOK() bool = c != nil && c.GenG1 != nil && c.GenG2 != nil && c.GroupOrder != nil
+//@ spec macro ppOK(t *TPS) bool = t.pp.c != nil && t.pp.g2 != nil && t.pp.n >= 1 && t.pp.c.GenG1 != nil && t.pp.c.GenG2 != nil && t.pp.c.GroupOrder != nil
+
+//@ type TPS
+//@   recv this
+//@   ghost combined bool
+//@   field shares, commitments, publicKeysOfParties immutable_after Init SetShareData
+//@   field shares[], commitments[], sharesProcessed guarded_by lock
+//@   // SetShareData fills a map it has just created, before the instance is handed to the dispatcher (threshold.prepareSigning)
+//@   field publicKeysOfParties[] guarded_by lock or_in SetShareData frozen_when forall i int :: 0 <= i && i < len(this.parties) ==> this.parties[i] in this.publicKeysOfParties
+//@   field Curve, Party, Logger, MessageLength config
+//@   field pp, id, sendMsg, parties, threshold, msgLength, init, signal immutable_after Init SetShareData
+//@   field sk, storedData, PKs owned_by the goroutine that runs KeyGen / SetShareData / Sign on this instance
+//@   invariant [logger] this.Logger != nil
+//@   invariant [inited] this.init ==> this.shares != nil && this.commitments != nil && this.publicKeysOfParties != nil
+
+//@ spec macro participant(t *TPS, p uint16) bool = p in elems(t.parties, len(t.parties))
+//@ spec macro distinctParties(t *TPS) bool = forall a int, b int :: 0 <= a && a < b && b < len(t.parties) ==> t.parties[a] != t.parties[b]
+//@ spec macro ready(t *TPS) bool = t.init && t.sendMsg != nil && t.shares != nil && t.commitments != nil && t.publicKeysOfParties != nil && ppOK(t) &&
+//@                                 2 <= t.threshold && t.threshold <= len(t.parties) && 1 <= t.id && t.id <= len(t.parties) && t.parties[t.id-1] == t.Party
+
+//@ // pkShape(b): the number of Y components if b parses as a public key on the curve, -1 otherwise (uninterpreted)
+//@ spec func pkShape(b string) int
+
+//@ monitor (*TPS).lock
+//@   guards shares, commitments, publicKeysOfParties, sharesProcessed
+//@   invariant [shares]      forall p uint16 :: { dom(this.shares, p) } p in this.shares ==> this.shares[p].x != nil && len(this.shares[p].ys) == this.pp.n
+//@   invariant [share-ys]    forall p uint16, k int :: { this.shares[p].ys[k] } p in this.shares && 0 <= k && k < len(this.shares[p].ys) ==> this.shares[p].ys[k] != nil
+//@   invariant [count]       this.shares != nil ==> this.sharesProcessed == card(keys(this.shares))
+//@   invariant [pks]         forall p uint16 :: { dom(this.publicKeysOfParties, p) } p in this.publicKeysOfParties ==> pkShape(string(this.publicKeysOfParties[p])) == this.pp.n
+//@   invariant [separate]    this.commitments != this.publicKeysOfParties || this.commitments == nil
+//@   invariant [share-keys]  forall p uint16 :: { dom(this.shares, p) } p in this.shares ==> participant(this, p) && p != this.Party
+//@   invariant [commit-keys] forall p uint16 :: { dom(this.commitments, p) } p in this.commitments ==> participant(this, p) && p != this.Party
+//@   stable [first-share]    forall p uint16 :: { dom(this.shares, p) } old(p in this.shares) ==> p in this.shares && this.shares[p] == old(this.shares[p])
+//@   stable [first-commit]   forall p uint16 :: { dom(this.commitments, p) } old(p in this.commitments) ==> p in this.commitments && same(this.commitments[p], old(this.commitments[p]))
+//@   stable [first-key]      forall p uint16 :: { dom(this.publicKeysOfParties, p) } old(p in this.publicKeysOfParties) ==> p in this.publicKeysOfParties && same(this.publicKeysOfParties[p], old(this.publicKeysOfParties[p]))
+//@   invariant [own-key]     this.publicKeysOfParties != nil && this.Party in this.publicKeysOfParties ==> this.combined
+//@   invariant [pk-keys]     forall p uint16 :: { dom(this.publicKeysOfParties, p) } p in this.publicKeysOfParties ==> participant(this, p)
+
+// ---- codecs of peer data ----------------------------------------------------------------------------------------------
+
+//@ func unmarshalPK
+//@   props C05 C10 C11
+//@   requires c != nil
+//@   modifies nothing
+//@   ensures [shape] result.1 == nil ==> result.0 != nil && result.0.X != nil && forall k int :: 0 <= k && k < len(result.0.Y) ==> result.0.Y[k] != nil
+//@   // parsing is a deterministic function of the bytes (asn1.Unmarshal and NewG2FromBytes are library functions)
+//@   assume-ensures [deterministic] (result.1 == nil) == (pkShape(string(bytes)) >= 0) && (result.1 == nil ==> len(result.0.Y) == pkShape(string(bytes)))
+//@   loop 0: invariant [ys] 0 <= i && forall k int :: 0 <= k && k < len(pk.Y) ==> pk.Y[k] != nil
+//@   loop 0: invariant [own] pk.Y == nil || fresh(pk.Y)
+//@
+//@ func unmarshalShare
+//@   props C05 C10 C11
+//@   requires c != nil
+//@   modifies nothing
+//@   ensures [shape] result.1 == nil ==> result.0 != nil && result.0.x != nil && forall k int :: 0 <= k && k < len(result.0.ys) ==> result.0.ys[k] != nil
+//@   loop 0: invariant [ys] 0 <= i && forall k int :: 0 <= k && k < len(sk.ys) ==> sk.ys[k] != nil
+//@   loop 0: invariant [own] sk.ys == nil || fresh(sk.ys)
+
+// ---- network-facing entry points ---------------------------------------------------------------------------------------
+
+//@ func (*TPS).ClassifyMsg
+//@   props C10 C04 C05
+//@   modifies nothing
+//@   ensures [share]   len(msgBytes) > 0 && msgBytes[0] == shareDistribution ==> result.2 == nil && !result.1 && result.0 == shareDistribution
+//@   ensures [commit]  len(msgBytes) > 0 && msgBytes[0] == commitPK ==> result.2 == nil && result.1 && result.0 == commitPK
+//@   ensures [reveal]  len(msgBytes) > 0 && msgBytes[0] == revealPK ==> result.2 == nil && result.1 && result.0 == revealPK
+//@   ensures [invalid] len(msgBytes) == 0 || msgBytes[0] == 0 || msgBytes[0] > revealPK ==> result.2 != nil
+//@
+//@ func (*TPS).OnMsg
+//@   props C10 C05
+//@   seq
+//@   requires tps.init && tps.pp.c != nil
+//@   requires [participant] participant(tps, from) && from != tps.Party
+//@   ensures [first-commit] old(from in tps.commitments) ==> same(tps.commitments[from], old(tps.commitments[from]))
+//@   ensures [first-key]    old(from in tps.publicKeysOfParties) ==> same(tps.publicKeysOfParties[from], old(tps.publicKeysOfParties[from]))
+//@   ensures [others]       forall p uint16 :: p != from ==> (p in tps.shares) == old(p in tps.shares) && (p in tps.commitments) == old(p in tps.commitments) &&
+//@                                             (p in tps.publicKeysOfParties) == old(p in tps.publicKeysOfParties)
+
+// ---- secret sharing, subset enumeration (same code as package bls) ----------------------------------------------------
+
+//@ func (Polynomial).ValueAt
+//@   props C18 C11
+//@   requires curveOK() && forall k int :: 0 <= k && k < len(p) ==> p[k] != nil
+//@   modifies nothing
+//@   ensures [non-nil] result != nil
+//@   loop 0: invariant sum != nil && 0 <= i
+//@
+//@ func (*SSS).Gen
+//@   props C18 C11
+//@   requires curveOK() && 0 <= n && 0 <= sss.Threshold
+//@   modifies nothing
+//@   ensures [shape] len(result.0) == sss.Threshold && len(result.1) == n
+//@   ensures [non-nil] (forall k int :: 0 <= k && k < len(result.0) ==> result.0[k] != nil) && (forall k int :: 0 <= k && k < n ==> result.1[k] != nil)
+//@   loop 0: invariant len(polynomial) == sss.Threshold && 0 <= i && forall k int :: 0 <= k && k < i ==> polynomial[k] != nil
+//@   loop 1: invariant len(polynomial) == sss.Threshold && len(shares) == n && 1 <= evaluationPoint &&
+//@                     (forall k int :: 0 <= k && k < len(polynomial) ==> polynomial[k] != nil) &&
+//@                     (forall k int :: 0 <= k && k < evaluationPoint-1 ==> shares[k] != nil)
+//@
+//@ func secretShare
+//@   props C11
+//@   requires curveOK() && 0 <= n && 0 <= t
+//@   modifies nothing
+//@   ensures len(result) == n && forall k int :: 0 <= k && k < n ==> result[k] != nil
+//@
+//@ func lagrangeCoefficient
+//@   props C10 C18
+//@   requires curveOK() && len(evaluationPoints) >= 2
+//@   requires [distinct] forall a int, b int :: 0 <= a && a < b && b < len(evaluationPoints) ==> evaluationPoints[a] != evaluationPoints[b]
+//@   modifies nothing
+//@   ensures  [non-nil] result != nil
+//@   loop 0: invariant [elems]    forall m int :: 0 <= m && m < len(prodElements) ==> prodElements[m] != nil
+//@   loop 0: invariant [nonempty] forall k int :: 0 <= k && k <= rangeindex && evaluationPoints[k] != evaluatedAt ==> len(prodElements) > 0
+//@   loop 1: invariant [prod]     prod != nil && 1 <= i
+//@
+//@ func encodeMsg
+//@   props C01 C05
+//@   modifies nothing
+//@   ensures [shape]   len(result) == len(payload)+1 && result[0] == msgType
+//@   ensures [payload] forall k int :: 0 <= k && k < len(payload) ==> result[1+k] == payload[k]
+//@   ensures [content] string(result[1:]) == string(payload)
+
+//@ spec macro increasingIn(s []int64, lo int, hi int) bool = (forall a int :: 0 <= a && a < len(s) ==> lo <= s[a] && s[a] <= hi) &&
+//@                                                               (forall a int, b int :: 0 <= a && a < b && b < len(s) ==> s[a] < s[b])
+
+//@ func concatInts
+//@   props C18
+//@   modifies nothing
+//@   ensures [shape]  len(result) == len(a) + len(elements) && (len(result) > 0 ==> fresh(result))
+//@   ensures [prefix] forall k int :: 0 <= k && k < len(a) ==> result[k] == a[k]
+//@   ensures [suffix] forall k int :: 0 <= k && k < len(elements) ==> result[len(a)+k] == elements[k]
+//@
+//@ func choose
+//@   props C18 C05 C11
+//@   requires f != nil && 0 <= i && i <= n && len(currentSubGroup) <= targetAmount
+//@   requires [prefix] increasingIn(currentSubGroup, 1, i)
+//@   modifies currentSubGroup[*]
+//@   decreases n - i
+//@   on-call f(s):
+//@     assert [subset] len(s) == targetAmount && increasingIn(s, 1, n)
+//@
+//@ func chooseKoutOfN
+//@   props C18 C05 C11
+//@   requires f != nil && 0 <= k && 0 <= n
+//@   iterates f(s) nonempty-when 0 <= k && k <= n
+//@   iterates-requires [subset] len(s) == k && increasingIn(s, 1, n)
+
+// ---- aggregation of public keys ------------------------------------------------------------------------------------------
+
+//@ func (PKs).XPoints
+//@   props C10 C18
+//@   modifies nothing
+//@   ensures len(result) == len(pks) && forall k int :: 0 <= k && k < len(pks) ==> result[k] == pks[k].X
+//@   loop 0: invariant len(res) == len(pks) && 0 <= i && forall k int :: 0 <= k && k < i ==> res[k] == pks[k].X
+//@
+//@ func (PKs).YPoints
+//@   props C10 C18
+//@   requires [shape] 0 <= index && forall k int :: 0 <= k && k < len(pks) ==> index < len(pks[k].Y)
+//@   modifies nothing
+//@   ensures len(result) == len(pks) && forall k int :: 0 <= k && k < len(pks) ==> result[k] == pks[k].Y[index]
+//@   loop 0: invariant len(res) == len(pks) && 0 <= i && forall k int :: 0 <= k && k < i ==> res[k] == pks[k].Y[index]
+//@
+//@ func localAggregateECPoints
+//@   props C10 C18
+//@   requires curveOK() && len(evaluationPoints) >= 2
+//@   requires [keys]     forall m int :: 0 <= m && m < len(points) ==> points[m] != nil
+//@   requires [points]   forall a int :: 0 <= a && a < len(evaluationPoints) ==> 1 <= evaluationPoints[a] && evaluationPoints[a] <= len(points)
+//@   requires [distinct] forall a int, b int :: 0 <= a && a < b && b < len(evaluationPoints) ==> evaluationPoints[a] != evaluationPoints[b]
+//@   modifies heap:L!alg!G2
+//@   ensures  [non-nil] result != nil && fresh(result)
+//@   loop 0: invariant sum != nil && 0 <= i
+//@
+//@ func localAggregatePublicKeys
+//@   props C10 C18 C05
+//@   requires curveOK() && len(evaluationPoints) >= 2 && 0 <= n
+//@   requires [keys]     forall m int :: 0 <= m && m < len(pks) ==> pks[m].X != nil && len(pks[m].Y) == n
+//@   requires [key-ys]   forall m int, k int :: { pks[m].Y[k] } 0 <= m && m < len(pks) && 0 <= k && k < len(pks[m].Y) ==> pks[m].Y[k] != nil
+//@   requires [points]   forall a int :: 0 <= a && a < len(evaluationPoints) ==> 1 <= evaluationPoints[a] && evaluationPoints[a] <= len(pks)
+//@   requires [distinct] forall a int, b int :: 0 <= a && a < b && b < len(evaluationPoints) ==> evaluationPoints[a] != evaluationPoints[b]
+//@   modifies heap:L!alg!G2
+//@   ensures  [shape] result.X != nil && len(result.Y) == n && forall k int :: 0 <= k && k < n ==> result.Y[k] != nil
+//@   loop 0: invariant len(pk.Y) == n && pk.X != nil && 0 <= i && forall k int :: 0 <= k && k < i ==> pk.Y[k] != nil
+
+// ---- distributed key generation ------------------------------------------------------------------------------------------
+
+//@ func (*TPS).Init
+//@   props C01 C05 C11
+//@   requires sendMsg != nil
+//@   on-entry:
+//@     ghost tps.combined = false
+//@
+//@ func marshalShare
+//@   props C11 C05
+//@   requires x != nil && 1 <= party && 0 <= n && len(y) == n
+//@   requires [shape] forall k int :: 0 <= k && k < len(y) ==> party <= len(y[k])
+//@   requires [non-nil] forall k int, m int :: { y[k][m] } 0 <= k && k < len(y) && 0 <= m && m < len(y[k]) ==> y[k][m] != nil
+//@   modifies nothing
+//@   loop 0: invariant len(ys) == n && 0 <= i && forall k int :: 0 <= k && k < i ==> ys[k] != nil
+//@   loop 1: invariant len(ys) == n && len(xys.Ys) == n && 0 <= i && forall k int :: 0 <= k && k < len(ys) ==> ys[k] != nil
+//@
+//@ func (*TPS).flattenPublicKeys
+//@   props C01 C11 C20
+//@   requires [complete] tps.publicKeysOfParties != nil && forall i int :: 0 <= i && i < len(tps.parties) ==> tps.parties[i] in tps.publicKeysOfParties
+//@   modifies nothing
+//@   ensures  [shape] len(result) == len(tps.parties)
+//@
+//@ func (*TPS).combineShares
+//@   props C01 C05 C11
+//@   seq
+//@   requires ppOK(tps) && tps.sk.x != nil && len(tps.sk.ys) == tps.pp.n && tps.shares != nil && tps.publicKeysOfParties != nil && 1 <= tps.id && tps.id <= len(tps.parties) && tps.parties[tps.id-1] == tps.Party
+//@   requires [own-ys]   forall k int :: 0 <= k && k < len(tps.sk.ys) ==> tps.sk.ys[k] != nil
+//@   requires [once]     !tps.combined
+//@   requires [complete] forall i int :: 0 <= i && i < len(tps.parties) && tps.parties[i] != tps.Party ==> tps.parties[i] in tps.shares
+//@   modifies tps.sk, tps.publicKeysOfParties[*], tps.combined, heap:E!p_math_Zr, heap:L!alg!F, heap:L!alg!G2
+//@   ensures  [own-key]  tps.sk.x != nil && tps.Party in tps.publicKeysOfParties && result.X != nil && len(tps.sk.ys) == tps.pp.n
+//@   ensures  [shape]    (forall k int :: 0 <= k && k < len(tps.sk.ys) ==> tps.sk.ys[k] != nil) && (forall k int :: 0 <= k && k < len(result.Y) ==> result.Y[k] != nil)
+//@   ensures  [others]   forall p uint16 :: p != tps.Party ==> (p in tps.publicKeysOfParties) == old(p in tps.publicKeysOfParties)
+//@   loop 0: invariant [sk] tps.sk.x != nil && len(tps.sk.ys) == tps.pp.n && forall k int :: 0 <= k && k < len(tps.sk.ys) ==> tps.sk.ys[k] != nil
+//@   loop 1: invariant [sk] 0 <= i && share.x != nil && len(share.ys) == tps.pp.n && tps.sk.x != nil && len(tps.sk.ys) == tps.pp.n &&
+//@                          (forall k int :: 0 <= k && k < len(tps.sk.ys) ==> tps.sk.ys[k] != nil) && (forall k int :: 0 <= k && k < len(share.ys) ==> share.ys[k] != nil)
+//@   loop 2: invariant [pk] 0 <= i && pk.X != nil && len(pk.Y) == len(tps.sk.ys) && (forall k int :: 0 <= k && k < i ==> pk.Y[k] != nil) &&
+//@                          (forall k int :: 0 <= k && k < len(tps.sk.ys) ==> tps.sk.ys[k] != nil)
+//@   at mapupdate(tps.publicKeysOfParties):
+//@     ghost tps.combined = true
+//@
+//@ func (*SK).Bytes
+//@   props C10 C11
+//@   requires sk.x != nil && forall k int :: 0 <= k && k < len(sk.ys) ==> sk.ys[k] != nil
+//@   modifies nothing
+//@   ensures result != nil
+//@   loop 0: invariant 0 <= i && len(xys.Ys) == len(sk.ys)
+//@
+//@ func (*PK).Bytes
+//@   props C10 C11
+//@   requires pk.X != nil && forall k int :: 0 <= k && k < len(pk.Y) ==> pk.Y[k] != nil
+//@   modifies nothing
+//@   ensures result != nil
+//@   // a key serialises to bytes that parse back with the same number of components (round trip through encoding/asn1 and mathlib)
+//@   assume-ensures [round-trip] pkShape(string(result)) == len(pk.Y)
+//@   loop 0: invariant 0 <= i && len(xys.Ys) == len(pk.Y)
+//@
+//@ func (*TPS).validateCommitments
+//@   props C05 C11
+//@   seq
+//@   requires tps.commitments != nil
+//@   requires [committed] forall p uint16 :: p in tps.publicKeysOfParties && p != tps.Party ==> p in tps.commitments
+//@   modifies nothing
+//@   ensures [match] result == nil ==> forall p uint16 :: p in tps.publicKeysOfParties && p != tps.Party ==>
+//@                     sha256(tps.publicKeysOfParties[p]) == string(tps.commitments[p])
+//@   loop 0: invariant [checked] forall p uint16 :: p in visited(tps.publicKeysOfParties) && p != tps.Party ==>
+//@                     sha256(tps.publicKeysOfParties[p]) == string(tps.commitments[p])
+
+//@ func (*TPS).assembleThresholdPublicKey
+//@   props C05 C11 C18 C01
+//@   requires curveOK() && ppOK(tps) && 2 <= tps.threshold && tps.threshold <= len(tps.parties)
+//@   requires [complete] tps.publicKeysOfParties != nil && forall i int :: 0 <= i && i < len(tps.parties) ==> tps.parties[i] in tps.publicKeysOfParties
+//@   requires [valid]    forall p uint16 :: { dom(tps.publicKeysOfParties, p) } p in tps.publicKeysOfParties ==> pkShape(string(tps.publicKeysOfParties[p])) == tps.pp.n
+//@   modifies heap:C!ps_PK, heap:MD!string!ps_PK, heap:MV!string!ps_PK, heap:E!any, heap:E!ps_PK, heap:E!p_math_G2, heap:L!alg!G2, heap:F!PK!X, heap:F!PK!Y
+//@   ensures  [non-nil]  result.0 != nil && result.1.X != nil && forall k int :: 0 <= k && k < len(result.1.Y) ==> result.1.Y[k] != nil
+//@   at iterate chooseKoutOfN:
+//@     assert [key] thresholdPublicKey.X != nil && thresholdPublicKeys != nil && forall k int :: 0 <= k && k < len(thresholdPublicKey.Y) ==> thresholdPublicKey.Y[k] != nil
+//@
+//@ func (*TPS).assembleThresholdPublicKey$1
+//@   inline
+//@   loop 0: invariant [keys] len(publicKeys) == rangeindex + 1 && (forall m int :: 0 <= m && m < len(publicKeys) ==> publicKeys[m].X != nil && len(publicKeys[m].Y) == tps.pp.n) &&
+//@                            (forall m int, k int :: { publicKeys[m].Y[k] } 0 <= m && m < len(publicKeys) && 0 <= k && k < len(publicKeys[m].Y) ==> publicKeys[m].Y[k] != nil)
+
+//@ func (*TPS).shareDistribution
+//@   props C05 C11
+//@   seq
+//@   requires curveOK() && ready(tps) && distinctParties(tps) && !tps.combined && ctx != nil && len(xShares) == len(tps.parties) && len(yShares) == tps.pp.n
+//@   requires [x]  forall k int :: 0 <= k && k < len(xShares) ==> xShares[k] != nil
+//@   requires [y]  forall k int :: 0 <= k && k < len(yShares) ==> len(yShares[k]) == len(tps.parties)
+//@   requires [yy] forall k int, m int :: { yShares[k][m] } 0 <= k && k < len(yShares) && 0 <= m && m < len(yShares[k]) ==> yShares[k][m] != nil
+//@   modifies tps.sk, guarded(tps.lock), heap:E!uint8
+//@   ensures [sk]   tps.sk.x != nil && len(tps.sk.ys) == tps.pp.n && forall k int :: 0 <= k && k < len(tps.sk.ys) ==> tps.sk.ys[k] != nil
+//@   ensures [wait] done(ctx) || (tps.shares != nil && card(keys(tps.shares)) == len(tps.parties) - 1)
+//@   ensures [inv]  forall p uint16 :: { dom(tps.shares, p) } p in tps.shares ==> participant(tps, p) && p != tps.Party && tps.shares[p].x != nil && len(tps.shares[p].ys) == tps.pp.n
+//@   ensures [inv2] forall p uint16, k int :: { tps.shares[p].ys[k] } p in tps.shares && 0 <= k && k < len(tps.shares[p].ys) ==> tps.shares[p].ys[k] != nil
+//@   ensures [inv3] !(tps.Party in tps.publicKeysOfParties) && !tps.combined
+//@   loop 0: invariant [own] 0 <= j && len(tps.sk.ys) == tps.pp.n && tps.sk.x != nil && fresh(tps.sk.ys) && forall k int :: 0 <= k && k < j ==> tps.sk.ys[k] != nil
+//@   loop 1: invariant [sk] 0 <= i && len(tps.sk.ys) == tps.pp.n && tps.sk.x != nil && forall k int :: 0 <= k && k < len(tps.sk.ys) ==> tps.sk.ys[k] != nil
+//@   on-call tps.sendMsg(m, bc, to):
+//@     assert [share-is-p2p] len(m) > 0 && m[0] == shareDistribution && !bc && to == tps.parties[i] && to != tps.Party
+//@
+//@ func (*TPS).commitPhase
+//@   inline
+//@   on-call tps.sendMsg(m, bc, to):
+//@     assert [commit-is-broadcast] len(m) == 33 && m[0] == commitPK && bc
+//@     assert [commit-binds-key]    string(m[1:]) == sha256(pk)
+//@
+//@ func (*TPS).revealPhase
+//@   inline
+//@   on-call tps.sendMsg(m, bc, to):
+//@     assert [reveal-is-broadcast] len(m) > 0 && m[0] == revealPK && bc
+//@     assert [no-early-reveal]     forall i int :: 0 <= i && i < len(tps.parties) && tps.parties[i] != tps.Party ==> tps.parties[i] in tps.commitments
+//@
+//@ func (*TPS).KeyGen
+//@   props C01 C05 C11
+//@   seq
+//@   requires curveOK() && ready(tps) && distinctParties(tps) && ctx != nil && !tps.combined
+//@   loop 0: invariant [ys] 0 <= i && len(yShares) == tps.pp.n && len(xShares) == len(tps.parties) && (forall k int :: 0 <= k && k < len(xShares) ==> xShares[k] != nil) &&
+//@                          (forall k int :: 0 <= k && k < i ==> len(yShares[k]) == len(tps.parties)) &&
+//@                          (forall k int, m int :: { yShares[k][m] } 0 <= k && k < i && 0 <= m && m < len(yShares[k]) ==> yShares[k][m] != nil)
+//@   on-call (*TPS).combineShares(t):
+//@     use distinctCard(tps.parties)
+//@     use subsetCardEq(keys(tps.shares), without(elems(tps.parties, len(tps.parties)), tps.Party))
+//@   on-call (*TPS).revealPhase(t, cx, k):
+//@     use distinctCard(tps.parties)
+//@     use subsetCardEq(keys(tps.commitments), without(elems(tps.parties, len(tps.parties)), tps.Party))
+//@   on-call (*TPS).validateCommitments(t):
+//@     use distinctCard(tps.parties)
+//@     use subsetCardEq(keys(tps.publicKeysOfParties), elems(tps.parties, len(tps.parties)))
+//@   at return:
+//@     assert [timeout-is-error] done(ctx) ==> result.1 != nil
+//@     assert [checked] result.1 == nil ==> forall p uint16 :: p in tps.publicKeysOfParties && p != tps.Party ==> sha256(tps.publicKeysOfParties[p]) == string(tps.commitments[p])
